@@ -743,7 +743,10 @@ def run(ctx):
     n = 60 if ctx.tier == "quick" else 4000
     ctx.rule = ('random families of 3-8 units (products, quotients, rational powers, scalings of built-ins, new base '
                 'units, scaled dimensionless units) on 1-2 stores (independent or sharing a registry); all ordered '
-                'pairs of 5-8 unit terms: factor, equivalence, convert, base-unit form; non-trivial = more than 8 operations')
+                'pairs of 5-8 unit terms: factor, equivalence, convert (also of magnitude 0), base-unit form; strata: sibling stores with '
+                'one name of two meanings, extreme scales, units carrying radian, scaled dimensionless units raised to powers inside '
+                'definitions next to the same expression built from Unit objects, factors with non-terminating decimals (1/60, 1/7, '
+                '1/1.1); non-trivial = more than 8 operations')
     ctx.trusted += ['tools/translate_builtins.py (units.py sets, data/cellml_units.txt -> Gen/Builtins_gen.v)',
                     'pint 0.18 arithmetic is binary floating point; the model is exact (tolerance 1e-9)']
     corpus = load_corpus()
